@@ -10,12 +10,15 @@ From Verif Require Import EngineRefineSpec EngineRefineSpecBlock EngineRefineSpe
      EngineRefineSpecBlock3 EngineRefineSpecHdr EngineRefineSpecReach EngineRefineSpecBuf
      EngineRefineSpecNeed EngineRefineSpecTop EngineRefineSpecFinal
      EngineCompleteSpecA EngineCompleteSpecB EngineCompleteSpecReach EngineCompleteSpecC
-     EngineCompleteSpecD EngineCompleteSpecE.
+     EngineCompleteSpecD EngineCompleteSpecE EngineCompleteSpecF.
 From Verif Require EngineRefineFinal EngineRefineDecomp EngineRefineBuf EngineRefineReach
      EngineRefineHeaderClc EngineRefineHeaderRL EngineRefineHBound
      EngineCompletePad EngineCompleteReach EngineCompleteHeader EngineCompleteSmall
      EngineCompleteGlue EngineCompleteGlue2 EngineCompleteRdHdr EngineCompleteRdHdr2
-     EngineCompleteHuffMain EngineCompleteDecomp EngineCompleteTop EngineCompleteRun.
+     EngineCompleteHuffMain EngineCompleteDecomp EngineCompleteTop EngineCompleteRun
+     EngineCompleteHeaderNeed3 EngineCompleteGlue3 EngineCompleteRdHdr3 EngineCompleteHuff3
+     EngineCompleteDecomp3 EngineCompleteTop3 EngineCompleteRun3 EngineCompleteSmallFit
+     EngineRefineRdHdrA.
 Import ListNotations.
 Open Scope N_scope.
 
@@ -90,5 +93,47 @@ Qed.
 Theorem erun_complete : erun_complete_statement.
 Proof. exact (EngineCompleteRun.erun_complete_from_kinds erun_kinds EngineRefineFinal.erun_sound). Qed.
 
+(* ---------------------------------------------------------------- exact end-of-input facts *)
+Theorem setupDynamicHeader_need3_final : setupDynamicHeader_need3_body.
+Proof.
+  exact (EngineCompleteGlue3.setupDynamicHeader_need3 canon_pad_final EngineRefineFinal.M2_gen_clc
+           EngineRefineHeaderClc.codeLenCodes_refine
+           EngineCompleteHeaderNeed3.codeLenCodes_need3 EngineCompleteHeaderNeed3.readLitDistLens_need3).
+Qed.
+
+Theorem readHeader_need3_final : readHeader_need3_body.
+Proof.
+  exact (EngineCompleteRdHdr3.readHeader_need3
+           (EngineCompleteRdHdr3.tryDecodeHeader_need3 setupDynamicHeader_need3_final)
+           EngineRefineRdHdrA.tryDecodeHeader_refine EngineRefineFinal.header_bound_final
+           EngineRefineFinal.setupDynamicHeader_refine EngineRefineFinal.prepareForLitBlock_refine_final
+           EngineRefineFinal.M3a_static_lit EngineRefineFinal.M3a_static_dist).
+Qed.
+
+Theorem decomp3_final : decomp_body3.
+Proof.
+  exact (EngineCompleteDecomp3.decomp3 readHeader_refine2_final readHeader_need3_final
+           readHeader_reject_final EngineRefineFinal.decodeHuffman_refine_final
+           EngineCompleteHuff3.decodeHuffman_outcome3 EngineRefineFinal.decodeLiteralBlock_refine_final
+           EngineRefineReach.reach_inv EngineRefineReach.reach_complete
+           EngineCompleteReach.reach_sym_run EngineCompleteReach.reach_sym_stop
+           EngineCompleteReach.reach_block_stop EngineCompleteReach.reach_stored_stop).
+Qed.
+
+(* (B), exact form, and the progress fact for C11: see erun_kinds3_statement *)
+Theorem erun_kinds3 : erun_kinds3_statement.
+Proof.
+  exact (EngineCompleteRun3.erun_kinds3_from_step
+           (EngineCompleteTop3.step_complete3 decomp3_final EngineRefineDecomp.decomperss_flush
+              EngineRefineBuf.bPeek_spec EngineRefineBuf.bPeek_buffered EngineRefineBuf.bDiscard_spec
+              EngineRefineReach.reach_inv)
+           EngineRefineBuf.newbuf_ok EngineRefineReach.reach_out_prefix EngineRefineReach.reach_done).
+Qed.
+
+(* complete distance codes (and codes without long words) are strict *)
+Definition dist_fits_complete_final := EngineCompleteSmallFit.dist_fits_complete.
+Definition dist_fits_short_final : dist_fits_short_statement := EngineCompleteSmall.dist_fits_short.
+
 Print Assumptions erun_kinds.
+Print Assumptions erun_kinds3.
 Print Assumptions erun_complete.
